@@ -1,5 +1,5 @@
 """C33 — Execution limits fail cleanly (PATH + row-stream ERRFLOW)."""
-from .. import evalguard, paths, rowflow
+from .. import errflow, evalguard, paths, rowflow
 from ..facts import op_local
 from ..mirutil import site_key
 
@@ -25,6 +25,8 @@ def run(ctx):
     ctx.rule("C33.1", "execute_plan returns only wrapped iterators; materialising loops check timeout and collection size")
     ctx.rule("C33.2", "adaptors over Result<Row> streams keep Err items (a dropped limit error truncates the result silently)")
     ctx.rule("C33.3", "the guard iterator checks the limits on every item")
+    ctx.rule("C33.5", "a loop that buffers a row stream stops at the first Err item instead of storing it (a stored error can be sorted / sliced away)")
+    ctx.rule("C33.4", "no query error (a limit error is one) is discarded in the executor: dropped Result, .ok(), or a match / if-let whose Err arm goes on without the payload")
     b = ctx.body(EXEC_PLAN)
     wraps = [c.bb for c in b.calls() if c.name == WRAP]
     rets = paths.success_returns_reachable(b, [0], avoid=wraps)
@@ -89,3 +91,50 @@ def run(ctx):
     for fb, c, g in evalguard.scan(F):
         if not g:
             ctx.observe("%s evaluates an expression without the pre-pass that enforces the range()/collection limit (%s)" % (fb.root or fb.id, c.loc()))
+
+    QERR = ("nervusdb_query::error::Error",)
+    seen = set()
+    nres = 0
+    for i in sorted(F.bodies):
+        if not i.startswith((EXEC, "<nervusdb_query::executor")) or "::tests::" in i:
+            continue
+        fb = F.bodies[i]
+        nres += len([c for c in fb.calls() if errflow.is_result_ty(fb.local_ty(c.dest[0]), QERR)])
+        for it in errflow.scan(F, fb, err_substr=QERR):
+            k = "%s:%s" % (fb.root or i, errflow.key_of(it))
+            if k in seen:
+                continue
+            seen.add(k)
+            c = it.get("call")
+            ctx.oblige(False, "C33.4", k, "a query error is discarded (%s): a resource-limit error raised there disappears and the query goes on with a "
+                       "partial result" % it["kind"], c.loc() if c else fb.file, sample={"fn": i, "kind": it["kind"]})
+    ctx.instance("C33.4", "%d fallible call sites in the executor inspected" % nres)
+    ctx.floor("C33.4", "fallible call sites in the executor", nres, 500)
+    ctx.obligations += nres
+    ctx.discharged += nres
+
+    # ---- clause 5: buffered errors
+    nb = 0
+    for i, fb in sorted(F.bodies.items()):
+        if not i.startswith(READ_MODS) or "::tests::" in i:
+            continue
+        nexts = [c for c in fb.calls() if c.declared.endswith("Iterator::next") and c.args and op_local(c.args[0]) is not None
+                 and rowflow.is_row_iter_ty(fb.local_ty(op_local(c.args[0])), its)]
+        seen_h = set()
+        for nx in nexts:
+            h = evalguard._loop_header(fb, nx.bb)
+            if h is None or h in seen_h:
+                continue
+            seen_h.add(h)
+            lb = evalguard._loop_blocks(fb, h)
+            for c in fb.calls():
+                if c.bb in lb and c.name.endswith("Vec::<T, A>::push") and len(c.args) > 1:
+                    l = op_local(c.args[1])
+                    ty = fb.local_ty(l) if l is not None else ""
+                    nb += 1
+                    stores_result = ty.startswith(rowflow.ROW)
+                    ctx.instance("C33.5", "%s: loop at line %d pushes %s" % (i, nx.line, "Result<Row> (errors are buffered)" if stores_result else ty[:50]))
+                    ctx.oblige(not stores_result, "C33.5", "%s:loop@%s:buffers-errors" % (fb.root or i, site_key(nx)),
+                               "the loop stores Err items of the row stream in its buffer instead of failing at once: after sorting, a later "
+                               "LIMIT / SKIP can slice the error away and the query returns a partial result as if it were complete", c.loc())
+    ctx.floor("C33.5", "buffering pushes in materialising loops", nb, 3)
